@@ -206,3 +206,55 @@ func Seq2(site string, v reflect.Value) iter.Seq2[reflect.Value, reflect.Value] 
 		}
 	}
 }
+
+// ---------------------------------------------------------------- sync.Map iteration
+
+// SyncRange replaces the method value m.Range of a sync.Map (both `range m.Range` and
+// `m.Range(func…)`): the entries are snapshotted, ordered canonically by key and visited in the
+// order the site's policy selects.
+func SyncRange(site string, m *sync.Map) func(yield func(k, v any) bool) {
+	return func(yield func(k, v any) bool) {
+		type kv struct {
+			k, v any
+			s    string
+		}
+		var all []kv
+		m.Range(func(k, v any) bool {
+			all = append(all, kv{k, v, keyString(k)})
+			return true
+		})
+		sort.SliceStable(all, func(i, j int) bool { return all[i].s < all[j].s })
+		mu.Lock()
+		p, ok := policy[site]
+		if !ok {
+			p = deflt
+		}
+		if _, seen := touched[site]; !seen || len(all) > touched[site] {
+			touched[site] = len(all)
+		}
+		mu.Unlock()
+		n := len(all)
+		order := make([]kv, 0, n)
+		switch p {
+		case 1:
+			for i := n - 1; i >= 0; i-- {
+				order = append(order, all[i])
+			}
+		case 2:
+			if n > 0 {
+				order = append(append(order, all[1:]...), all[0])
+			}
+		case 3:
+			if n > 0 {
+				order = append(append(order, all[n-1]), all[:n-1]...)
+			}
+		default:
+			order = all
+		}
+		for _, e := range order {
+			if !yield(e.k, e.v) {
+				return
+			}
+		}
+	}
+}
